@@ -77,9 +77,13 @@ class Machine(RuleBasedStateMachine):
     @rule(data=st.data())
     def add(self, data):
         pool = list(self.w.models)
-        kind = data.draw(st.integers(0, 3))
+        kind = data.draw(st.integers(0, 4))
         if kind == 0:
             m = data.draw(S.trees(NAMES, depth=2, pool=pool, const_bias=2))
+        elif kind == 4:
+            # a left-hand side of some rewrite rule: the shapes on which the simplifier actually does something
+            from harness import redex as RX
+            _name, m = data.draw(RX.templates(NAMES))
         else:
             a = data.draw(st.sampled_from(pool))
             b = data.draw(st.sampled_from(pool)) if data.draw(st.booleans()) else data.draw(S.trees(NAMES, depth=1, pool=pool))
